@@ -28,6 +28,55 @@ theorem userToUserEntry_fields (u : UserCfg) :
 theorem groupToGroupEntry_spec (g : GroupCfg) : groupToGroupEntry g = specGroup g := rfl
 
 
+/-! ## path mutations -/
+
+/-- `mutatePaths` is the left fold of the loop body over the list, stopping at the first error:
+a list is applied by applying its prefix and then the rest from the state reached. -/
+theorem mutatePaths_append (c : Cfg) (fs : FS) (ms1 ms2 : List Mutation) :
+    mutatePaths c fs (ms1 ++ ms2) = andThen (mutatePaths c fs ms1) fun fs1 => mutatePaths c fs1 ms2 :=
+  seqM_append (mutateOne c) fs ms1 ms2
+
+theorem mutatePaths_cons (c : Cfg) (fs : FS) (m : Mutation) (ms : List Mutation) :
+    mutatePaths c fs (m :: ms) = andThen (mutateOne c fs m) fun fs1 => mutatePaths c fs1 ms :=
+  seqM_cons (mutateOne c) fs m ms
+
+theorem mutatePaths_nil (c : Cfg) (fs : FS) : mutatePaths c fs [] = (fs, none) := rfl
+
+/-- **mutation_post (permission bits and ownership)** — `mutatePermissionsDirect`: after a
+successful call the node the path resolves to (links followed, as `Chmod`/`Chown` do) carries
+exactly the declared Unix permission bits — set-user-ID, set-group-ID and sticky included — and
+the declared owner; it is the node the path resolved to before, its kind and content are
+untouched, and no other node changed. -/
+theorem perm_post (c : Cfg) (fs fs' : FS) (hi : FS.Inv fs) (p : Text) (perms uid gid : Nat)
+    (h : mutatePermissionsDirect c fs p perms uid gid = (fs', none)) :
+    ∃ i, follow c fs p = some i ∧ follow c fs' p = some i ∧
+      permBitsOK (fs'.node i) perms = true ∧ ownerOK (fs'.node i) uid gid = true ∧
+      (fs'.node i).dir = (fs.node i).dir ∧ (fs'.node i).data = (fs.node i).data ∧
+      (fs'.node i).mode &&& modeType = (fs.node i).mode &&& modeType ∧
+      ShapeEq fs fs' ∧ ∀ j, j ≠ i → fs'.node j = fs.node j := by
+  obtain ⟨i, hg, rfl⟩ := mpd_ok h
+  have hl := getNode_live hi c p i hg
+  have hsh := shape_setAttrs fs i (permMode perms) (permMode_bit27 perms) uid gid
+  refine ⟨i, by simp [follow, hg], by simp [follow, getNode_shape hsh c p, hg], ?_, ?_, ?_, ?_, ?_, hsh, ?_⟩
+  · simp [node_setAttrs, hl, permBitsOK, unixPerm_permMode]
+  · simp [node_setAttrs, hl, ownerOK]
+  · simp [node_setAttrs, hl]
+  · simp [node_setAttrs, hl]
+  · simp only [node_setAttrs, hl, and_self, if_true, typeKeep]
+    apply Nat.eq_of_testBit_eq; intro k
+    simp only [Nat.testBit_and, Nat.testBit_or]
+    by_cases hk : k < 9 ∨ k = 20 ∨ k = 22 ∨ k = 23
+    · simp [modeType_low k hk]
+    · have hp : (permMode perms).testBit k = false := by
+        simp only [permMode, unixToFileMode_testBit]
+        have a1 : (k < 9) = False := by simp; omega
+        have a2 : (k = 23) = False := by simp; omega
+        have a3 : (k = 22) = False := by simp; omega
+        have a4 : (k = 20) = False := by simp; omega
+        simp [a1, a2, a3, a4]
+      simp [hp]
+  · intro j hj; simp [node_setAttrs, hj]
+
 /-! ## ties: the source the model was written from (regenerated on every run) -/
 
 /-- the literals of the model are the literals of `userToUserEntry` / `mutateAccounts` -/
